@@ -37,7 +37,7 @@ __CPROVER_assigns();
 
 /* KSI_base32Decode on the monitored string (env/ghost_base32.h):
  *  OK  => no character that has to be refused was seen, *data_len = floor(5 * #symbols / 8), and every bit of the
- *         output (witness bit g_b32.wbit) is the corresponding bit of the corresponding alphabet symbol;
+ *         output (witness bit g_b32_wbit) is the corresponding bit of the corresponding alphabet symbol;
  *  a refusal happens only for a string containing a non-alphabet character, and always when one that must be
  *  refused is seen before the end; outputs untouched on failure. */
 int KSI_base32Decode(const char *base32, unsigned char **data, size_t *data_len)
@@ -49,7 +49,7 @@ __CPROVER_ensures(__CPROVER_return_value == KSI_OK || __CPROVER_return_value == 
 __CPROVER_ensures(IMPLIES(__CPROVER_return_value == KSI_OK,
 		!g_b32.must_reject && (g_b32.ended || g_b32_calls == g_b32_len) &&
 		*data != NULL && *data_len == g_b32.bits / 8 &&
-		IMPLIES(g_b32.wbit < 8 * *data_len, spec_b32_bit(*data, g_b32.wbit) == g_b32.wval)))
+		IMPLIES(g_b32_wbit < 8 * *data_len, spec_b32_bit(*data, g_b32_wbit) == g_b32.wval)))
 __CPROVER_ensures(IMPLIES(__CPROVER_return_value == KSI_INVALID_FORMAT, g_b32.may_reject))
 __CPROVER_ensures(IMPLIES(g_b32.must_reject, __CPROVER_return_value != KSI_OK))
 __CPROVER_ensures(IMPLIES(__CPROVER_return_value != KSI_OK, *data == __CPROVER_old(*data) && *data_len == __CPROVER_old(*data_len)));
@@ -59,15 +59,17 @@ __CPROVER_ensures(IMPLIES(__CPROVER_return_value != KSI_OK, *data == __CPROVER_o
  * NUL-terminated at exactly the reference length. */
 size_t g_b32e_k;     /* witness: position in the padded symbol sequence */
 size_t g_b32e_j;     /* witness: output index */
+char g_b32e_exp;     /* the reference character at sequence position g_b32e_k (defined by the precondition below) */
 int KSI_base32Encode(const unsigned char *data, size_t data_len, size_t group_len, char **encoded)
 __CPROVER_requires(data_len > 0 && data_len <= ((size_t)1 << 40) && group_len <= ((size_t)1 << 40) && __CPROVER_is_fresh(data, data_len))
 __CPROVER_requires(__CPROVER_is_fresh(encoded, sizeof(*encoded)))
+__CPROVER_requires(IMPLIES(g_b32e_k < spec_b32_padded(data_len), g_b32e_exp == spec_b32_seq(data, data_len, g_b32e_k)))   /* definition of the ghost */
 __CPROVER_assigns(*encoded)
 __CPROVER_ensures(__CPROVER_return_value == KSI_OK || __CPROVER_return_value == KSI_OUT_OF_MEMORY)
 __CPROVER_ensures(IMPLIES(__CPROVER_return_value != KSI_OK, *encoded == __CPROVER_old(*encoded)))
 __CPROVER_ensures(IMPLIES(__CPROVER_return_value == KSI_OK, *encoded != NULL &&
 		(*encoded)[spec_b32_strlen(data_len, group_len)] == '\0' &&
 		IMPLIES(g_b32e_k < spec_b32_padded(data_len),
-			(*encoded)[spec_b32_pos(g_b32e_k, group_len)] == spec_b32_seq(data, data_len, g_b32e_k)) &&
+			(*encoded)[spec_b32_pos(g_b32e_k, group_len)] == g_b32e_exp) &&
 		IMPLIES(group_len > 0 && g_b32e_j < spec_b32_strlen(data_len, group_len) && g_b32e_j % (group_len + 1) == group_len,
 			(*encoded)[g_b32e_j] == '-')));
